@@ -2,6 +2,7 @@
    C03 / C06 / C07 (tools/cside.py).  Nothing here is used by a theorem. *)
 From Coq Require Import ZArith List Bool.
 From BP Require Import Bits Schema Spec CMem CRt.
+From BPGen Require Import GenC.
 Import ListNotations.
 Open Scope Z_scope.
 
@@ -31,6 +32,26 @@ Fixpoint obj_eqb (a b : obj) : bool :=
          end) x y
   | _, _ => false
   end.
+
+Fixpoint desc_eqb (a b : desc) : bool :=
+  match a, b with
+  | DBase f n s, DBase f' n' s' => (f =? f') && (n =? n') && (s =? s')
+  | DAlias n s tf t, DAlias n' s' tf' t' => (n =? n') && (s =? s') && (tf =? tf') && desc_eqb t t'
+  | DArray n s x c e, DArray n' s' x' c' e' =>
+      (n =? n') && (s =? s') && Bool.eqb x x' && (c =? c') && desc_eqb e e'
+  | DMsg n x nf dn fds, DMsg n' x' nf' dn' fds' =>
+      (n =? n') && Bool.eqb x x' && (nf =? nf') && (dn =? dn') &&
+      (fix go (l1 l2 : list (Z * desc)) : bool :=
+         match l1, l2 with
+         | [], [] => true
+         | p :: r, q :: s => (fst p =? fst q) && desc_eqb (snd p) (snd q) && go r s
+         | _, _ => false
+         end) fds fds'
+  | _, _ => false
+  end.
+
+(* T1: the descriptors parsed from the EMITTED C equal the renderer model's *)
+Definition t1_case (t : ty) (d : desc) : Z := if desc_eqb d (render (norm t)) then 0 else 8.
 
 (* what the implementation was observed to do: Some bytes, or None when the harness saw a
    guard zone damaged (which can only equal a model outcome MemErr) *)
